@@ -50,6 +50,18 @@ fn lint_by_ref_arg(
             match &arg_pos.element {
                 Expression::ArrayElement(name, args, expression_type) => {
                     if args.is_empty() {
+                        // an array of fixed-length strings is not an array of strings:
+                        // the elements cannot be shared with a `p$()` parameter
+                        let is_fixed_length = |e: &ExpressionType| match e {
+                            ExpressionType::FixedLengthString(_) => true,
+                            ExpressionType::Array(element) => {
+                                matches!(element.as_ref(), ExpressionType::FixedLengthString(_))
+                            }
+                            _ => false,
+                        };
+                        if is_fixed_length(expression_type) {
+                            return Err(LintError::ArgumentTypeMismatch.at(arg_pos));
+                        }
                         let dummy_expr =
                             Expression::Variable(name.clone(), expression_type.clone()).at(arg_pos);
                         lint_by_ref_arg(&dummy_expr, boxed_element_type.as_ref())
